@@ -97,7 +97,7 @@ def token_scan(rep):
 def count_of(a, stride):
     cnt = None
     for x in c05.subterms(a):
-        if x[0] == 'call' and x[1] and x[1].startswith("llvm.umul.with.overflow") and x[4] == ('ci', stride, 64):
+        if x[0] in ('call', 'fn') and x[1] and x[1].startswith("llvm.umul.with.overflow") and x[4] == ('ci', stride, 64):
             cnt = x[3]
         elif x[0] == 'op' and x[1] == 'mul' and x[4] == ('ci', stride, 64) and cnt is None:
             cnt = x[3]
